@@ -90,6 +90,10 @@ fn dispatch_events_per_event_body(&mut self, sources_at_lookup: &SourceList<'l, 
         // C02: an event for a live source IS handed to that source's dispatcher (must-call witness) ...
         sources_at_lookup.lookup(event.token.inner.forget()) is Some ==> (sources_at_lookup@[event.token.inner.forget().sid()].disp() matches Some(d) ==> {
             &&& d.w_processed(event.readiness, event.token)
+            // C09/C15 (stated on the whole body, so that it holds for EVERY way out of it -- also an early end of the iteration
+            // on a processing error): once a source has been processed, whatever it deferred has been taken out of the
+            // loop-wide cell and the cell reset; nothing is carried over to a later event or another source
+            &&& crate::ext::cell_was_set(&old(self).handle.inner.pending_action, PostAction::Continue) /*@props C09,C15,C07,C02*/
             // C06: ... and if the source is gone from its slot when processing is over (it removed itself, returned
             // Remove, or the slot was reused meanwhile) it has been asked to unregister before the loop lets go of it
             &&& ((final(sources).lookup(event.token.inner.forget()) is None || final(sources)@[event.token.inner.forget().sid()].vacant()))
@@ -201,6 +205,75 @@ fn dispatch_events_per_event_body(&mut self, sources_at_lookup: &SourceList<'l, 
             assert(ret is Continue ==> *sources == sources0 && *extra == extra0); /*@props C09*/
 //@ tail
     Ok(())
+//@ alt
+//@ rw R10 1/2 <<self.handle.inner.sources.borrow()>> => <<sources_at_lookup>>
+//@ rw R10 2/2 <<self.handle.inner.sources.borrow()>> => <<sources>>
+//@ rw R10 1 <<self.handle.inner.sources.borrow_mut()>> => <<sources>>
+//@ rw R10 * <<&mut self.handle.inner.poll.borrow_mut()>> => <<&mut *poll>>
+//@ rw R10 * <<= self.handle.inner.poll.borrow_mut();>> => <<= &mut *poll;>>
+//@ rw R10 * <<self .handle .inner .sources_with_additional_lifecycle_events .borrow_mut()>> => <<(*extra)>>
+//@ closure <<|entry| entry.source.clone()>>
+-> (c: Option<Rc<dyn EventDispatcher<Data> + 'l>>) ensures c == entry.disp()
+//@ closure? <<|entry| entry.source.is_none()>>
+-> (b: bool) ensures b == entry.vacant()
+//@ sig
+/// S1 slice of EventLoop::dispatch_events: the body of the `for event in ..` loop (one event of the batch).
+/// Free variables `event`, `data`, `self` become parameters; the loop head (Vec::drain().chain(), unsupported by
+/// Verus) and everything before it are dropped. Rule R10: each RefCell borrow of a loop cell becomes a parameter
+/// standing for the borrowed value: `sources_at_lookup` is the slot list as it is when the event is looked up
+/// (BEFORE user code runs in process_events), `sources` is the slot list as it is when the post-action is applied
+/// (AFTER process_events -- user code may have changed it arbitrarily in between, hence two unrelated parameters);
+/// `poll`/`extra` are borrowed only after process_events has returned. `first_error` is the local of dispatch_events that
+/// remembers the first error of the batch (since the repair of F10 an error no longer ends the loop); it is passed in by
+/// value and its new value is what the slice returns.
+fn dispatch_events_per_event_body(&mut self, sources_at_lookup: &SourceList<'l, Data>, sources: &mut SourceList<'l, Data>, mut poll: &mut Poll, extra: &mut AdditionalLifecycleEventsSet, event: PollEvent, data: &mut Data, mut first_error: Option<crate::Error>) -> (r: Option<crate::Error>)
+//@ spec
+    requires all_accept::<Data>(), sources_at_lookup.wf(), old(sources).wf(),
+    ensures
+        final(sources).wf(), final(sources)@.len() == old(sources)@.len(),
+        // C15/C02 (F10): an error of this event's source does not end the batch (this body has no early exit) and is not
+        // lost: the FIRST error of the batch is kept for dispatch_events to return once every event has been handled
+        first_error is Some ==> r == first_error,
+        // C09 / C01: whatever the source returned or requested, nothing is applied to ANY OTHER source: every other
+        // slot keeps its dispatcher and generation, every other entry of the lifecycle set stays
+        forall|k: int| 0 <= k < old(sources)@.len() && k != event.token.inner.forget().sid() ==> #[trigger] final(sources)@[k] == old(sources)@[k],
+        event.token.inner.forget().sid() < old(sources)@.len() ==> final(sources)@[event.token.inner.forget().sid()].tok() == old(sources)@[event.token.inner.forget().sid()].tok(),
+        extra_frame(old(extra), final(extra), RegistrationToken::of(event.token.inner.forget())),
+        // C01 / C06: an event whose (generation-checked) token addresses no occupied slot -- a removed source, or a
+        // slot that has since been reused -- is dropped without touching anything
+        (sources_at_lookup.lookup(event.token.inner.forget()) is None || sources_at_lookup@[event.token.inner.forget().sid()].vacant())
+            ==> r == first_error && final(sources)@ == old(sources)@ && final(extra)@ == old(extra)@,
+        // C02: an event for a live source IS handed to that source's dispatcher (must-call witness) ...
+        sources_at_lookup.lookup(event.token.inner.forget()) is Some ==> (sources_at_lookup@[event.token.inner.forget().sid()].disp() matches Some(d) ==> {
+            &&& d.w_processed(event.readiness, event.token)
+            // C09/C15 (stated on the whole body, so that it holds for EVERY way out of it -- also an early end of the iteration
+            // on a processing error): once a source has been processed, whatever it deferred has been taken out of the
+            // loop-wide cell and the cell reset; nothing is carried over to a later event or another source
+            &&& crate::ext::cell_was_set(&old(self).handle.inner.pending_action, PostAction::Continue) /*@props C09,C15,C07,C02*/
+            // C06: ... and if the source is gone from its slot when processing is over (it removed itself, returned
+            // Remove, or the slot was reused meanwhile) it has been asked to unregister before the loop lets go of it
+            &&& ((final(sources).lookup(event.token.inner.forget()) is None || final(sources)@[event.token.inner.forget().sid()].vacant()))
+                    ==> d.w_unregister_called(RegistrationToken::of(event.token.inner.forget()))
+            // C14/C15: ... and its lifecycle entry does not outlive it: the dispatcher confirmed the unregistration, or the entry
+            // has been dropped here (defect F11: a FAILING unregister used to leave it behind => `unreachable!()` next dispatch)
+            &&& ((final(sources).lookup(event.token.inner.forget()) is None || final(sources)@[event.token.inner.forget().sid()].vacant()))
+                    ==> (!final(extra)@.contains(RegistrationToken::of(event.token.inner.forget())) || d.w_unregistered(RegistrationToken::of(event.token.inner.forget())) || d.w_deferred())
+        }),
+//@ entry
+    // (overlay for a body that does not keep the processing result in a local `result` -- e.g. it matches on the call
+    //  directly and ends the iteration early on Err: the contract is the one of the first overlay)
+    let ghost sources0 = *sources;
+    let ghost extra0 = *extra;
+    proof { broadcast use RegistrationToken::lemma_of, TokenInner::lemma_forget_idem, TokenInner::lemma_forget; }
+//@ before <<match ret {>>
+            assert(reg_token == event.token.inner.forget()); /*@props C01,C09,C14,C07*/
+//@ after <<match ret {>>
+            assert(ret is Reregister ==> disp.w_reregistered(RegistrationToken::of(reg_token)) || disp.w_deferred() || first_error is Some); /*@props C09*/
+            assert(ret is Disable ==> disp.w_unregister_called(RegistrationToken::of(reg_token))); /*@props C09,C07*/
+            assert(ret is Remove ==> sources.lookup(reg_token) is None || sources@[reg_token.sid()].vacant()); /*@props C09,C06*/
+            assert(ret is Continue ==> *sources == sources0 && *extra == extra0); /*@props C09*/
+//@ tail
+    first_error
 //@ endslice
 
 //@ slice src/loop_logic.rs / impl EventLoop<'l, Data> / fn dispatch_events :: stmts <<for event in self.synthetic_events.drain(..).chain(events)>> .. <<for event in self.synthetic_events.drain(..).chain(events)>> props=C15,C02,C05,C17 name=EventLoop::dispatch_events::batch_loop
